@@ -75,6 +75,11 @@ func c11OnScreen(cs []tcue, t2 int64) string {
 	return fmt.Sprint(ks)
 }
 
+var (
+	c11Region = &astisub.Region{ID: "rg", InlineStyle: &astisub.StyleAttributes{WebVTTWidth: "40%"}}
+	c11Style  = &astisub.Style{ID: "st", InlineStyle: &astisub.StyleAttributes{SRTBold: true}}
+)
+
 func c11Check(cs []tcue) string { return c11Check2(cs, false) }
 
 func c11Check2(cs []tcue, warm bool) string {
@@ -92,8 +97,17 @@ func c11Check2(cs []tcue, warm bool) string {
 				it.Lines = append(it.Lines, astisub.Line{Items: []astisub.LineItem{{Text: l}}})
 			}
 		}
-		it.Index = k
 		decorate(it, k)
+		it.Index = k
+		// some cues sit in a region, some have a style, some neither: merging two of them is no reason to pass them on
+		switch k % 4 {
+		case 0:
+			it.Region = c11Region
+		case 1:
+			it.Style = c11Style
+		case 2:
+			it.Region, it.Style = c11Region, c11Style
+		}
 		sub.Items = append(sub.Items, it)
 		snaps[k] = snapItem(it)
 	}
